@@ -17,6 +17,7 @@ pub struct Rec {
     cur: usize,
     episode: u64,
     fresh: bool,
+    pub pinned: bool,
     pub events: u64,
     pub per_op: std::collections::BTreeMap<String, u64>,
     distinct: HashSet<u64>,
@@ -49,6 +50,7 @@ impl Rec {
             cur: 0,
             episode: 0,
             fresh: true,
+            pinned: false,
             events: 0,
             per_op: Default::default(),
             distinct: HashSet::new(),
@@ -64,7 +66,9 @@ impl Rec {
     /// (it starts with an event that sets every register it uses).
     pub fn episode(&mut self) {
         self.episode += 1;
-        self.cur = (self.episode as usize) % NSHARDS;
+        if !self.pinned {
+            self.cur = (self.episode as usize) % NSHARDS;
+        }
         self.fresh = true;
     }
 
